@@ -147,3 +147,29 @@ func init() {
 		Rules:       []*Rule{rulePrec, ruleEvalOrder, ruleDispatch, ruleMapRange},
 	})
 }
+
+func init() {
+	Register(&Property{
+		ID: "C02",
+		Explanation: "Decides structural necessary conditions of type soundness: every unchecked Go type assertion in a built-in is justified by the " +
+			"declared signature that the parser enforces, every args[i] of a variadic built-in is behind a length guard, assertions on the content " +
+			"of an any are comma-ok (R-BUILTINSIG); user numbers reach integer conversions and allocation sizes only through NaN/Inf/fraction-safe " +
+			"guards (R-F2I with its allocation clause, evaluator); eval has a case for every node kind the parser defines and fails with an error " +
+			"otherwise (R-EXHAUST/eval); accepted values enter any-typed slots only through wrapAny (R-ACCEPTWRAP); non-literal expressions never " +
+			"carry a convertible type into wrapAny (R-FIXED); scopes are paired so a variable's run-time value has its static type (R-SCOPEPAIR/evaluator).",
+		NotDecided:  "That the parser's typing of operands matches the evaluator's assertions in evalBinaryExpr/normalizeIndex beyond the operator matrix, panics inside the Go standard library for exotic values, memory exhaustion.",
+		Assumptions: []string{"element assertions inside array arguments (poly) are not checked"},
+		Rules:       []*Rule{ruleBuiltinSig, f2iRule("pkg/evaluator", 4), exhaustRule("eval", 25), ruleAcceptWrap, ruleFixed, ruleScopePairEval},
+	})
+	Register(&Property{
+		ID: "C13",
+		Explanation: "Decides the structural part of 'built-ins do what the documentation says': names, arities, parameter and result types of all " +
+			"built-ins agree between docs/builtins.md, the declaration table and the implementation (R-BUILTINSIG); number arguments that are " +
+			"range-checked are checked NaN-safely and reach integer conversions only guarded (R-NANGUARD, R-F2I); the err/errmsg protocol: " +
+			"str2num/str2bool reset the globals before anything else and set them only on the failure edge, and no other function touches them " +
+			"(R-ERRPROTO); len/has/del use the rune view and the map representation (R-RUNES, R-MAPENC).",
+		NotDecided:  "Returned values and formatted text of the built-ins (value-level).",
+		Assumptions: []string{},
+		Rules:       []*Rule{ruleBuiltinSig, ruleNaNGuard, f2iRule("pkg/evaluator", 4), ruleErrProto, runesRule("pkg/evaluator", "stringVal", 4)},
+	})
+}
